@@ -20,6 +20,7 @@ from ..core.ddmin import ddmin
 from ..ops.base import Ctx, OPS, END
 from ..ops import elf_ops, dwarf_ops, session_ops  # noqa: F401  (register ops)
 from ..ops import catalog, pool as poolmod
+from . import lutgen
 
 ENGINE = 'histsim'
 QUICK_MAX = 64 * 1024
@@ -328,7 +329,7 @@ class NeedFile(Exception):
 
 def selftest_context():
     return dict(names=_ST['names'], dwarf_names=_ST.get('dwarf_names', []), prep_cross=_ST['prep_cross'],
-                n_random=_ST['n_random'], n_pairs=_ST.get('n_pairs', 0), n_xfile=_ST.get('n_xfile', 0))
+                n_random=_ST['n_random'], n_pairs=_ST.get('n_pairs', 0), n_xfile=_ST.get('n_xfile', 0), n_lutgen=_ST.get('n_lutgen', 0))
 
 
 def _prepare_subset(prop, tier, seed, only, context):
@@ -336,7 +337,8 @@ def _prepare_subset(prop, tier, seed, only, context):
     from the finder; catalogue, pool and references are recomputed here, but only for the files those runs touch."""
     _ST.clear()
     _ST.update(files={}, prop=prop, prep={}, skipped_files={}, tier=tier, names=context['names'], dwarf_names=context['dwarf_names'],
-               prep_cross=context['prep_cross'], n_random=context['n_random'], n_pairs=context['n_pairs'], n_xfile=context['n_xfile'])
+               prep_cross=context['prep_cross'], n_random=context['n_random'], n_pairs=context['n_pairs'], n_xfile=context['n_xfile'],
+               n_lutgen=context.get('n_lutgen', 0))
     focus = _focus(prop)
     nx = len(_ST['prep_cross'])
 
@@ -355,6 +357,8 @@ def _prepare_subset(prop, tier, seed, only, context):
             first.add(_ST['prep_cross'][index]['file'])
             continue
         r = substream(run_seed(seed, prop, tier, index), 'cfg')
+        if index >= nx + _ST['n_random'] + _ST['n_pairs'] + _ST['n_xfile']:
+            continue
         if index >= nx + _ST['n_random'] + _ST['n_pairs']:
             dn = _ST['dwarf_names']
             first.add(dn[(index - nx - _ST['n_random'] - _ST['n_pairs']) % len(dn)])   # the partner is found by gen_spec below
@@ -370,7 +374,8 @@ def _prepare_subset(prop, tier, seed, only, context):
         for index in only:
             try:
                 sp = gen_spec(prop, tier, seed, index)
-                more.update(sp.get('files') or [sp['file']])
+                if sp.get('kind') != 'lutgen':
+                    more.update(sp.get('files') or [sp['file']])
             except NeedFile as e:
                 more.add(e.args[0])
             except KeyError:
@@ -447,6 +452,7 @@ def prepare(prop, tier, seed, only=None, context=None):
     _ST['n_xfile'] = 0
     if prop == 'C10' and len(_ST['dwarf_names']) >= 2:
         _ST['n_xfile'] = len(_ST['dwarf_names']) * (4 if tier == 'quick' else 40)
+    _ST['n_lutgen'] = (4000 if tier == 'quick' else 200000) if prop == 'C13' else 0
     if not _ST['names']:
         _ST['n_random'] = 0
         _ST['n_pairs'] = 0
@@ -455,7 +461,7 @@ def prepare(prop, tier, seed, only=None, context=None):
 def n_runs(prop, tier):
     # index 0 .. n_cross-1: the history-free cross-path findings of prepare (one pseudo run each),
     # then the random histories, then the stratified pair pass
-    return len(_ST['prep_cross']) + _ST['n_random'] + _ST.get('n_pairs', 0) + _ST.get('n_xfile', 0)
+    return len(_ST['prep_cross']) + _ST['n_random'] + _ST.get('n_pairs', 0) + _ST.get('n_xfile', 0) + _ST.get('n_lutgen', 0)
 
 
 # ---------------------------------------------------------------- a simulation run
@@ -467,6 +473,8 @@ def gen_spec(prop, tier, seed, index):
     rs = run_seed(seed, prop, tier, index)
     r = substream(rs, 'cfg')
     names = _ST['names']
+    if index >= nx + _ST['n_random'] + _ST.get('n_pairs', 0) + _ST.get('n_xfile', 0):
+        return dict(engine=ENGINE, kind='lutgen', table=lutgen.gen_spec(rs))
     if index >= nx + _ST['n_random'] + _ST.get('n_pairs', 0):
         # struct-cache runs: everything of file A is decoded, then everything of file B, in one process; B must answer as
         # if it were alone (process-wide caches keyed by byte order / format / address size / version are shared)
@@ -554,9 +562,23 @@ class _Task:
         self.done = False
 
 
+def _execute_lutgen(spec):
+    violations = []
+
+    def viol(key, check, expected, observed):
+        violations.append(dict(key=key, check=check, expected=expected, observed=observed))
+    log, st = lutgen.execute(spec['table'], viol)
+    ndisp = sum(1 for d in spec['table']['displace'] if d is not None)
+    return dict(spec=spec, violations=violations, digest=pdigest(log, [v['key'] for v in violations]), nontrivial=True,
+                nt_digest=pdigest(spec['table']['data'], spec['table']['queries']), evaluations=1, sim_time=st,
+                faults={'cursor_displacement': [ndisp, ndisp]}, probes={'synthetic_table_runs': 1, 'synthetic_' + spec['table']['kind']: 1}, sample=None)
+
+
 def execute_spec(spec):
     if spec.get('kind') == 'cross':
         return _execute_cross(spec)
+    if spec.get('kind') == 'lutgen':
+        return _execute_lutgen(spec)
     fnames = spec.get('files') or [spec['file']]
     fis = [_file_info(n) for n in fnames]
     ctxs = [_mkctx(f) for f in fis]
@@ -849,6 +871,8 @@ def execute_index(prop, tier, seed, index):
 def prepare_replay(prop, spec):
     _ST.setdefault('files', {})
     _ST['prop'] = prop
+    if spec.get('kind') == 'lutgen':
+        return
     if spec.get('kind') == 'cross':
         _file_info(spec['file'])
         return
@@ -883,7 +907,7 @@ def minimise(spec, key, still_fails, deadline):
     executes the schedule verbatim and stops at its end; lenient replay (minimisation only) skips
     events that no longer apply and lets the remaining ops run round robin, and hands back the
     schedule that actually happened."""
-    if spec.get('kind') == 'cross' or not spec.get('schedule'):
+    if spec.get('kind') in ('cross', 'lutgen') or not spec.get('schedule'):
         return spec
     spec = dict(spec)
     spec.pop('lenient', None)
@@ -1027,8 +1051,10 @@ def spec_for(prop, tier, seed, index):
 
 
 def describe(prop):
-    scope = ('op mix restricted to unit / address-range / name-table lookups' if prop == 'C13'
-             else 'whole public read-only alphabet (ELF and DWARF level)')
+    scope = ('op mix restricted to unit / address-range / name-table lookups; plus seeded synthetic .debug_aranges / .debug_pubnames tables '
+             '(several sets, empty sets, unsorted and abutting ranges, both address sizes, non-ASCII names) handed to the real ARanges / NameLUT '
+             'classes over a simulated stream, looked up in seeded order with cursor displacement, against the linear scan of what was encoded'
+             if prop == 'C13' else 'whole public read-only alphabet (ELF and DWARF level)')
     return dict(
         level='exploration',
         rule=('run = one corpus file opened once on simulated streams, 1-4 client tasks x 1-8 pooled ops (%s), scheduled step by step '
